@@ -277,6 +277,7 @@ func (m *TableModel) iterate(x *Exec, ts *TableState, method string, args []Valu
 		complete(k)
 	}
 	ts.Univ = append(ts.Univ, complete)
+	ts.univN0 = append(ts.univN0, n0)
 	if method == "DeleteBy" || method == "DeleteRange" {
 		for _, k := range wit {
 			ts.write(x, k, false, ts.rowLeavesAt(x, k, len(ts.Log)))
